@@ -1,7 +1,40 @@
-(* Entry point of the extracted model for property C09: run_C09 case = observation. *)
+(* Entry point of the extracted model for property C09: run_C09 case = observation.
+   cases: (1 bytes)            parsePSIData + toData: the three-way outcome (tables | error | nothing)
+          (2 bytes off mask)   the same on bytes with mask XOR-ed in at byte offset off
+          (3 psidata)          writePSIData, then the outcome of parsing what was written
+   outcome: (0 (table ...)) with one (EIT NIT PAT PMT SDT TOT) entry per delivered table -- () = nothing --,
+            (1 code) error, (2) panic *)
 From Coq Require Import ZArith List.
-Require Import Base.Tok Base.Iter Extract.RunBase.
+Require Import Base.Tok Base.Iter Base.Wr Gen.Types Model.Psi Extract.RunBase.
 Import ListNotations.
 Open Scope Z_scope.
 
-Definition run_C09 (t : tok) : tok := TL [].
+Definition tok_of_table (d : DemuxerData) : tok :=
+  TL [of_opt tok_of_EITData (DemuxerData_EIT d); of_opt tok_of_NITData (DemuxerData_NIT d);
+      of_opt tok_of_PATData (DemuxerData_PAT d); of_opt tok_of_PMTData (DemuxerData_PMT d);
+      of_opt tok_of_SDTData (DemuxerData_SDT d); of_opt tok_of_TOTData (DemuxerData_TOT d)].
+
+Definition outcome (bs : list Z) : tok :=
+  tok_of_res (fun d => TL (map tok_of_table (psi_to_data d zero_Packet 0))) (parse_psi_data_bytes bs).
+
+Fixpoint xor_at (bs : list Z) (off : nat) (mask : list Z) : list Z :=
+  match bs with
+  | [] => []
+  | b :: r =>
+      match off with
+      | S k => b :: xor_at r k mask
+      | O => match mask with [] => bs | m :: mr => Z.lxor b m :: xor_at r O mr end
+      end
+  end.
+
+Definition run_C09 (t : tok) : tok :=
+  match tI (tnth 0 t) with
+  | 1 => outcome (tB (tnth 1 t))
+  | 2 => outcome (xor_at (tB (tnth 1 t)) (Z.to_nat (tI (tnth 2 t))) (tB (tnth 3 t)))
+  | 3 => match write_psi_data (PSIData_of_tok (tnth 1 t)) with
+         | Ok bs => TL [TI 0; TB bs; outcome bs]
+         | Err c => TL [TI 1; TI c]
+         | Panic => TL [TI 2]
+         end
+  | _ => TL []
+  end.
